@@ -6,7 +6,7 @@ from ..mir import switch_conds, cmp_true_false_edges, try_edges
 from ..dataflow import (call_of, cond_at, field_sources, forward_flow, message_creations, const_of, single_var_guard,
                         single_var_regions, single_var_walk)
 from ..guards import EqGuard, site_guarded, is_sender, is_loaded
-from .common import storage_calls, arg_origins, ok_value_blocks, must_pass_through
+from .common import storage_calls, arg_origins, ok_value_blocks, must_pass_through, nonzero_edges
 from .C12 import check_messages_attached
 
 EXPLANATION = """
@@ -66,15 +66,14 @@ def check_forward(ctx, model):
     ctx.floor("C10-Q2", "sub-messages in forward_fees", len(subs), 4)
     # order of pushes
     order = []
-    for b, t in v.calls_to(r"^std::vec::Vec::push$"):
-        a1 = t["args"][1]
-        if a1["k"] in ("copy", "move"):
-            for sb, si, sl, info in subs:
-                if a1["pl"]["l"] == sl or any(d[0] == "s" and d[3]["rv"]["r"] == "use" and d[3]["rv"]["op"].get("pl", {}).get("l") == sl
-                                             for d in v.defs().get(a1["pl"]["l"], [])):
-                    order.append((b, info))
-    order.sort(key=lambda x: x[0])
-    linear = all(order[k + 1][0] in v.reach_strict(order[k][0]) for k in range(len(order) - 1))
+    from .common import vec_additions
+    for k, (b, t, elem, how, at_) in enumerate(vec_additions(v, r"SubMsg")):
+        os_ = v.origins_of_operand(elem, at=at_)
+        for sb, si, sl, info in subs:
+            if any(o.kind == "agg" and o.a.endswith("SubMsg::SubMsg") and o.b == "%s:bb%d" % (v.path, sb) for o in os_):
+                order.append((b, info, k))
+    order.sort(key=lambda x: (x[0], x[2]))
+    linear = all(order[k + 1][0] == order[k][0] or order[k + 1][0] in v.reach_strict(order[k][0]) for k in range(len(order) - 1))
     seq = [("%s/%s" % ((x[1]["inner"] or ["?"])[0], (x[1]["factory"] or ["?"])[0])) for x in order]
     want = ["CollectFees/vault_factory", "CollectFees/pool_factory", "AggregateFees/vault_factory", "AggregateFees/pool_factory"]
     ctx.ob("C10-Q2", "%s|order" % FF, seq == want and linear, "sub-messages pushed in order %s (expected %s)" % (seq, want), v.where())
@@ -132,19 +131,19 @@ def check_reply(ctx, model):
             os_ = v.origins_of_place(c.pl, at=c.at)
             if os_ and all(o.kind == "load" and tuple(o.proj) == ("is_take_rate_active",) for o in os_):
                 conds["active"] = fe if c.neg else te
-        elif c.kind == "cmp" and c.op in ("!=", "=="):
-            at = cond_at(v, c)
-            oa = v.origins_of_operand(c.a, at=at)
+            continue
+        nz = nonzero_edges(v, b, c)
+        if nz is not None:
+            oa = v.origins_of_operand(nz[0], at=nz[1])
             if oa and all(o.kind == "load" and tuple(o.proj) == ("take_rate",) for o in oa):
-                conds["rate!=0"] = te if c.op == "!=" else fe
-        elif c.kind == "call" and c.callee.endswith("::is_empty"):
+                conds["rate!=0"] = nz[2]
+            elif fee(oa):
+                conds["fee!=0"] = nz[2]
+            continue
+        if c.kind == "call" and c.callee.endswith("::is_empty"):
             a0 = v.origins_of_operand(c.term["args"][0], at=v.at_term(c.block), taint=True)
             if any(o.kind == "load" and tuple(o.proj) == ("take_rate_dao_address",) for o in a0):
                 conds["dao-set"] = te if c.neg else fe
-        elif c.kind == "call" and c.callee.endswith("Uint128::is_zero"):
-            a0 = v.origins_of_operand(c.term["args"][0], at=v.at_term(c.block))
-            if fee(a0):
-                conds["fee!=0"] = te if c.neg else fe
     hist = storage_calls(v, "fee_collector::state::TAKE_RATE_HISTORY", ("save",))
     for name, edges in sorted(conds.items()):
         ok = bool(edges) and v.edge_dominated(dao_b, edges) and all(v.edge_dominated(hb, edges) for hb, _ in hist) and bool(hist)
